@@ -101,7 +101,7 @@ def check(ctx):
                 continue
             first = r['writes'][0]
             kinds = sorted({PROTECTED.get(w[0].split(' ')[0], w[0]) for w in r['writes']})
-            sig = raise_signature(ctx.M, ('raise', r['exc'], r['site'], r['fn']))
+            sig = raise_signature(ctx.M, ('raise', r['exc'], r['site'], r['fn'], r.get('owner')))
             why = out_of_scope(sig)
             detail = 'protected writes that may precede the refusal: ' + '; '.join('%s via %s at %s in %s' % w for w in r['writes'][:6])
             if why:
